@@ -97,6 +97,10 @@ func evalC14(c *Ctx, cs C14Case) string {
 					c.Inconclusive("generation timed out (C13's business)")
 					return ""
 				}
+				if r.EnvironmentFailure() {
+					c.Infra("the CLI failed for a reason of the machine, not of its input: exit %d, %s", r.Exit, clip(lastLine(r.Stderr), 200))
+					return ""
+				}
 				failed = r.Failed()
 			} else {
 				r := yg.Generate(cs.Text, v.Name, out)
@@ -136,6 +140,10 @@ func evalC14(c *Ctx, cs C14Case) string {
 			if rb.TimedOut {
 				c.Inconclusive("generation timed out (C13's business)")
 				continue
+			}
+			if rb.EnvironmentFailure() {
+				c.Infra("the CLI failed for a reason of the machine, not of its input: exit %d, %s", rb.Exit, clip(lastLine(rb.Stderr), 200))
+				return ""
 			}
 			if ra.Failed() != rb.Failed() {
 				return fmt.Sprintf("variant %s: in-process generation %s, a fresh CLI process %s on the same input\n%s", v.Name, okfail(ra.Failed()), okfail(rb.Failed()), cs.Text)
